@@ -241,7 +241,7 @@ Print Assumptions C02_latest_wins_fold.
 
 Theorem C02_envmap_agrees_with_list_fold : forall (fold : list byte -> list byte) vars args,
   consistent_f fold (cmd_env_f fold args (setup_env_f fold vars)).
-Proof. intros fold vars args. exact (cmd_env_consistent_f fold args _ (setup_consistent_f fold vars)). Qed.
+Proof. exact reachable_consistent_f. Qed.
 Print Assumptions C02_envmap_agrees_with_list_fold.
 
 Theorem C02_fold_id_is_model : forall st k v vars args,
